@@ -4,6 +4,7 @@ import PsutilModel.Base.Proto
 import PsutilModel.Model.C17Gen
 import PsutilModel.Spec.C17
 import PsutilModel.Spec.C17Ext
+import PsutilModel.Spec.C17Py
 open Lean Psutil Psutil.Proto Psutil.C17
 
 def jVal : Val → Json
@@ -78,6 +79,55 @@ def jPrio : PrioOut → Json
   | .value v => jObj [("kind", "value"), ("value", jInt v)]
   | .osError c => jObj [("kind", "exc"), ("exc", "OSError"), ("errno", jNat c)]
 
+def jAsk : Ask → Json
+  | .found p => jObj [("kind", "found"), ("path", jBytes p)]
+  | .nothing => jObj [("kind", "none")]
+  | .indexError => jObj [("kind", "exc"), ("exc", "IndexError")]
+
+def parseUev (j : Json) : R (Nat × Nat × Bytes) := do
+  match j.getArr? with
+  | .ok #[a, b, t] => pure (← asNat a, ← asNat b, ← asBytes t)
+  | _ => .error "uevent must be [major, minor, text]"
+
+def parseClassDev (j : Json) : R (Bytes × Option Bytes) := do
+  match j.getArr? with
+  | .ok #[n, t] =>
+    let nm ← asBytes n
+    if t.isNull then pure (nm, none) else do
+      let c ← asBytes t
+      pure (nm, some c)
+  | _ => .error "classdev must be [name, content|null]"
+
+def parseBlockDev (j : Json) : R Spec.BlockDev := do
+  match j.getArr? with
+  | .ok #[a, b, c, n] => pure ⟨← asNat a, ← asNat b, ← asNat c, ← asBytes n⟩
+  | _ => .error "dev must be [major, minor, blocks, name]"
+
+def parseIo (f : Json → R α) (j : Json) : R (Except Nat α) := do
+  match (j.getObjVal? "err").toOption with
+  | some e => pure (.error (← asNat e))
+  | none => pure (.ok (← field j "ok" >>= f))
+
+def parseEth (j : Json) : R (Nat × Nat × Nat) := do
+  match j.getArr? with
+  | .ok #[d, hi, lo] => pure (← asNat d, ← asNat hi, ← asNat lo)
+  | _ => .error "eth must be [duplex, hi, lo]"
+
+def parseNic (j : Json) : R (Bytes × NicAns) := do
+  pure (← bytesF j "name", { mtu := ← field j "mtu" >>= parseIo asNat, flags := ← field j "flags" >>= parseIo asNat,
+                              eth := ← field j "eth" >>= parseIo parseEth })
+
+def jStats (sep : Bytes) : StatsOut → Json
+  | .rows rs => jObj [("kind", "ok"), ("rows", jList (fun (p : Bytes × NicRow) =>
+      Json.arr #[jBytes p.1, Json.bool p.2.isup, jNat p.2.duplex, jInt p.2.speed, jNat p.2.mtu, jBytes (joinWith sep (p.2.flags.map ofString))]) rs)]
+  | .osError c => jObj [("kind", "exc"), ("exc", "OSError"), ("errno", jNat c)]
+  | .keyError d => jObj [("kind", "exc"), ("exc", "KeyError"), ("key", jNat d)]
+  | .ub => jObj [("kind", "ub")]
+
+def jAddrDict (d : List (Bytes × List AddrRow)) : Json :=
+  jList (fun (p : Bytes × List AddrRow) =>
+    Json.arr #[jBytes p.1, jList (fun (r : AddrRow) => Json.arr #[jInt r.fam, jVal r.addr, jVal r.mask, jVal r.bcast, jVal r.ptp]) p.2]) d
+
 def maxIdx (ws : List (Nat × Nat)) : Nat := ws.foldl (fun m w => max m w.1) 0
 
 def handle (_ : Unit) (j : Json) : R (Unit × Json) := do
@@ -90,8 +140,9 @@ def handle (_ : Unit) (j : Json) : R (Unit × Json) := do
     if trail.length ≥ 384 then .error "trailing partial record must be shorter than 384 bytes"
     let file := Spec.renderAll recs ++ trail
     let emit := (j.getObjVal? "emit").toOption.isSome
-    let m := jObj ([("rows", jRows (users ucfg file beyond)),
-                    ("reads", jList jNat (usersReads ucfg file beyond))]
+    -- `ucfgS`: the decode flags are read off the source SHAPE (= `ucfg` when the shape is not understood)
+    let m := jObj ([("rows", jRows (users ucfgS file beyond)),
+                    ("reads", jList jNat (usersReads ucfgS file beyond))]
                    ++ (if emit then [("file", jBytes file)] else []))
     return ((), jObj [("model", m), ("spec", jObj [("rows", jRows (Spec.users recs))])])
   else if op == "partitions" then
@@ -201,6 +252,39 @@ def handle (_ : Unit) (j : Json) : R (Unit × Json) := do
       | some v => pure (.ok (← asInt v))
       | none => pure (.error (← natF j "kerr")))
     return ((), jObj [("model", jPrio (getPriority gcfg e k)), ("spec", jPrio (Spec.getPriority k))])
+  else if op == "rootfs" then
+    let M ← natF j "major"
+    let m ← natF j "minor"
+    let parts ← optF asBytes j "partitions"
+    let uevs ← listF parseUev j "uevents"
+    let cds ← listF parseClassDev j "classdevs"
+    let ex ← listF asBytes j "exists"
+    let devs ← optF (fun x => do match x.getArr? with | .ok a => a.toList.mapM parseBlockDev | _ => .error "devs") j "devs"
+    let sys : RootSys := { major := M, minor := m, partitions := parts,
+                           uevent := fun a b => (uevs.find? (fun u => u.1 == a && u.2.1 == b)).map (·.2.2),
+                           classDevs := cds, pathExists := fun p => ex.contains p }
+    let strategies := ["ask_proc_partitions", "ask_sys_dev_block", "ask_sys_class_block"].map (runStrategy fcfg sys)
+    let spec := match devs with
+      | none => Json.null
+      | some ds => match Spec.rootOf ds M m with
+        | some d => if ex.contains (Spec.devPath d) then jAsk (.found (Spec.devPath d)) else jAsk .nothing
+        | none => jAsk .nothing
+    let specStrat := match devs with
+      | none => Json.null
+      | some ds => match Spec.rootOf ds M m with
+        | some d => jAsk (.found (Spec.devPath d))
+        | none => jAsk .nothing
+    return ((), jObj [("model", jObj [("find", jAsk (rootFind fcfg sys)), ("strategies", jList jAsk strategies)]),
+                      ("spec", jObj [("find", spec), ("strategy", specStrat)])])
+  else if op == "netifstats" then
+    let nics ← listF parseNic j "nics"
+    if !(nics.all fun p => match p.2.eth with | .ok (_, hi, lo) => hi < 65536 && lo < 65536 | .error _ => true) then .error "halves are 16-bit"
+    return ((), jObj [("model", jStats tcfg.flagSep (netIfStats tcfg ecfg iffLinux Gen.C17.iffMask nics)), ("spec", jStats [44] (Spec.netIfStats nics []))])
+  else if op == "netifaddrs" then
+    let es ← listF parseIfEntry j "entries"
+    let raw := (ifRows ncfg mcfg es).filterMap rowOfVals
+    let sraw := (Spec.ifRows (fun d => if d.isEmpty then none else some (Spec.macText d)) es).filterMap rowOfVals
+    return ((), jObj [("model", jAddrDict (netIfAddrs wcfg raw)), ("spec", jAddrDict (Spec.netIfAddrs sraw))])
   else .error s!"unknown op {op}"
 
 def main : IO Unit := Proto.run () (total handle)
